@@ -19,6 +19,7 @@ type lruObj struct {
 	nkeys   int
 	rtEvery bool // JSON round trip (object replaced by the decoded one) after every operation
 	drained bool
+	snap    []byte // the outstanding encoding (save)
 }
 
 // lruKey maps the specification's key index to a real key; index 0 is the
@@ -143,6 +144,45 @@ func (o *lruObj) apply(a map[string]any) any {
 			return msg
 		}
 		o.s = nb
+		return "ok"
+	case "save":
+		bs, err := json.Marshal(o.s)
+		if err != nil {
+			return "marshal error: " + err.Error()
+		}
+		o.snap = bs
+		return "ok"
+	case "rollback":
+		// the live object kept operating after the save; the snapshot is decoded into it
+		if o.snap == nil {
+			return "no snapshot"
+		}
+		if err := json.Unmarshal(o.snap, &o.s); err != nil {
+			return "unmarshal error: " + err.Error()
+		}
+		return "ok"
+	case "load_into_used":
+		// another set of the same size, visited, evicted from and bound differently
+		// (also to a key the snapshot cannot contain), receives the snapshot
+		if o.snap == nil {
+			return "no snapshot"
+		}
+		other := lruset.NewSet(o.n)
+		for w := o.n - 1; w >= 0; w-- {
+			other.Visit(w)
+		}
+		other.Evict()
+		for k := 1; k <= o.nkeys; k++ {
+			other.UpdateKey((k+1)%max(o.n, 1), "", lruKey(k))
+		}
+		other.UpdateKey(0, "", "decoy")
+		if err := json.Unmarshal(o.snap, &other); err != nil {
+			return "unmarshal error: " + err.Error()
+		}
+		if w, found := other.Lookup("decoy"); found {
+			return fmt.Sprintf("a key bound before the load survives it (way %d)", w)
+		}
+		o.s = other
 		return "ok"
 	case "drain":
 		// end of history: read the recency order off the real object itself
